@@ -777,14 +777,19 @@ func rawOutTerm(v reflect.Value) string {
 	if !v.IsValid() {
 		return "[0]"
 	}
+	ptr := false
 	for v.Kind() == reflect.Ptr {
 		if v.IsNil() {
 			return "[(-1)]"
 		}
 		v = v.Elem()
+		ptr = true
 	}
 	if v.Kind() == reflect.Struct {
 		var ss []int
+		if ptr {
+			ss = append(ss, -77) // a pointer to the struct, not the struct
+		}
 		for i := 1; i < v.NumField(); i++ {
 			ss = append(ss, serialOf(v.Field(i)))
 		}
